@@ -198,6 +198,33 @@ def job_guard(job):
     return {'constructed': True}, True
 
 
+def job_harmonica(job):
+    """HarmonicaDesigner on a one-parameter categorical space with the counter-model's categories: accepted? then 10 warm-up trials and one
+    model-based suggestion, which must lie in the space"""
+    from vizier._src.algorithms.designers import harmonica
+    from vizier import algorithms as vza
+    fv = list(dict.fromkeys(job['feasible']))
+    p = vz.ProblemStatement(metric_information=[vz.MetricInformation('m', goal=vz.ObjectiveMetricGoal.MAXIMIZE)])
+    p.search_space.root.add_categorical_param('c', fv)
+    out = {'feasible': fv}
+    try:
+        d = harmonica.HarmonicaDesigner(p)
+    except ValueError as e:
+        out['refused'] = str(e)[:80]
+        return out, False
+    np.random.seed(0)
+    bad = False
+    for i in range(12):
+        s = d.suggest(1)[0]
+        ok = p.search_space.contains(s.parameters)
+        out['suggestion_%d' % i] = [dict(s.parameters.as_dict()), ok]
+        bad = bad or not ok
+        t = s.to_trial(i + 1)
+        t.complete(vz.Measurement({'m': float(i % 3)}))
+        d.update(vza.CompletedTrials([t]), vza.ActiveTrials())
+    return out, bad
+
+
 def findings():
     """DESIGN 10 row 18: a configured default outside the bounds of a DOUBLE parameter is accepted by ParameterConfig.factory and is
     what get_default_parameters / seed_with_default suggests first."""
@@ -274,6 +301,12 @@ def _param_pool(tier):
         ('f_log', lambda r: r.add_float_param('f_log', 1e-4, 1e2, scale_type=S.LOG)),
         ('f_log_narrow', lambda r: r.add_float_param('f_log_narrow', 5.0, 5.000001, scale_type=S.LOG)),
         ('f_rlog', lambda r: r.add_float_param('f_rlog', 0.5, 64.0, scale_type=S.REVERSE_LOG)),
+        # ranges whose end points do not survive (lo + hi) - hi / exp(log(.)) in floating point
+        ('f_rlog_a', lambda r: r.add_float_param('f_rlog_a', 1e-4, 1.0, scale_type=S.REVERSE_LOG)),
+        ('f_rlog_b', lambda r: r.add_float_param('f_rlog_b', 0.1, 0.9, scale_type=S.REVERSE_LOG)),
+        ('f_rlog_c', lambda r: r.add_float_param('f_rlog_c', 1e-5, 3e-5, scale_type=S.REVERSE_LOG)),
+        ('f_log_a', lambda r: r.add_float_param('f_log_a', 1e-4, 1.0, scale_type=S.LOG)),
+        ('f_log_b', lambda r: r.add_float_param('f_log_b', 0.1, 0.3, scale_type=S.LOG)),
         ('f_default', lambda r: r.add_float_param('f_default', 0.0, 10.0, default_value=2.5)),
         ('i_zero_width', lambda r: r.add_int_param('i_zero_width', 4, 4)),
         ('i_small', lambda r: r.add_int_param('i_small', -2, 3)),
@@ -334,7 +367,7 @@ def standin(tier):
             'refusal_examples': refusals[:2]}, bool(fails)
 
 
-JOBS = {'guard': job_guard, 'random_sample': job_random_sample, 'default': job_default, 'grid': job_grid, 'halton': job_halton, 'factory': job_factory,
+JOBS = {'harmonica': job_harmonica, 'guard': job_guard, 'random_sample': job_random_sample, 'default': job_default, 'grid': job_grid, 'halton': job_halton, 'factory': job_factory,
         'tpv': R15.job_tpv}
 
 
